@@ -1,1 +1,1 @@
-// hooks for src/tracker_client.rs
+// hooks for src/tracker_client.rs (none needed yet)
